@@ -10,6 +10,7 @@ import (
 	"google.golang.org/protobuf/encoding/protojson"
 	"google.golang.org/protobuf/encoding/prototext"
 	"google.golang.org/protobuf/encoding/protowire"
+	"google.golang.org/protobuf/internal/impl"
 	"google.golang.org/protobuf/internal/strs"
 	"google.golang.org/protobuf/proto"
 	"google.golang.org/protobuf/reflect/protoreflect"
@@ -92,10 +93,10 @@ const c28Required = "required/*"
 var c28RequiredKinds = []string{"Int32", "Int64", "Uint32", "Uint64", "Sint32", "Sint64", "Fixed32", "Fixed64", "Float", "Double", "Bool", "String", "Bytes", "Message", "Group"}
 
 var c28MutAll = []string{"set", "set", "set", "set-zero", "clear", "clear", "set-msg-empty", "mutable-msg", "list-append", "list-append", "list-set", "list-truncate", "map-set", "map-set", "map-clear",
-	"oneof-set", "oneof-set", "oneof-msg-mutable", "set-unknown", "ext-set", "ext-clear", "merge", "decode-oneof-multi", "roundtrip-bin", "roundtrip-json", "roundtrip-text", "readonly-write", "check-encoded", "json-two-members", "text-two-members", "presence-sweep", "emptied-view", "emptied-view", "gen-set", "gen-set", "gen-clear", "gen-set-msg", "gen-clear-msg", "range-scrub"}
-var c28MutC11 = []string{"set", "set", "set-zero", "set-zero", "set-zero", "clear", "clear", "presence-sweep", "emptied-view", "gen-set", "gen-set", "gen-clear", "gen-set-msg", "gen-clear-msg", "set-msg-empty", "mutable-msg", "list-append", "list-truncate", "map-set", "map-clear", "oneof-set", "ext-set", "ext-clear",
+	"oneof-set", "oneof-set", "oneof-msg-mutable", "set-unknown", "ext-set", "ext-clear", "merge", "decode-oneof-multi", "roundtrip-bin", "roundtrip-json", "roundtrip-text", "readonly-write", "check-encoded", "json-two-members", "text-two-members", "presence-sweep", "emptied-view", "emptied-view", "gen-set", "gen-set", "gen-clear", "gen-set-msg", "gen-clear-msg", "gen-oneof-nil-wrapper", "range-scrub", "gen-oneof-nil-wrapper"}
+var c28MutC11 = []string{"set", "set", "set-zero", "set-zero", "set-zero", "clear", "clear", "presence-sweep", "emptied-view", "gen-set", "gen-set", "gen-clear", "gen-set-msg", "gen-clear-msg", "gen-oneof-nil-wrapper", "set-msg-empty", "mutable-msg", "list-append", "list-truncate", "map-set", "map-clear", "oneof-set", "ext-set", "ext-clear",
 	"roundtrip-bin", "roundtrip-bin", "roundtrip-json", "roundtrip-text", "check-encoded", "check-encoded", "merge"}
-var c28MutC12 = []string{"gen-set", "gen-set", "gen-clear", "gen-set-msg", "gen-clear-msg", "oneof-set", "oneof-set", "oneof-set", "oneof-set", "oneof-msg-mutable", "oneof-msg-mutable", "clear", "set", "merge", "merge", "decode-oneof-multi", "decode-oneof-multi", "decode-oneof-multi",
+var c28MutC12 = []string{"gen-set", "gen-set", "gen-clear", "gen-set-msg", "gen-clear-msg", "gen-oneof-nil-wrapper", "oneof-set", "oneof-set", "oneof-set", "oneof-set", "oneof-msg-mutable", "oneof-msg-mutable", "clear", "set", "merge", "merge", "decode-oneof-multi", "decode-oneof-multi", "decode-oneof-multi",
 	"roundtrip-bin", "roundtrip-json", "roundtrip-text", "json-two-members", "json-two-members", "text-two-members", "text-two-members", "set-msg-empty"}
 var c28Reads = []string{"render", "render", "range", "has", "get", "which", "unknown", "len", "descriptor"}
 
@@ -626,6 +627,56 @@ func (p *c28Pair) mutate(op *scn.Op, newMsg func() proto.Message) string {
 			if !same {
 				return fmt.Sprintf("value: generated Get%s returns %v right after Set%s(%v)", name, got.Interface(), name, arg.Interface())
 			}
+		}
+	case "gen-oneof-nil-wrapper":
+		// open and hybrid structs: a oneof wrapper allocated with a nil message inside (the struct-literal
+		// idiom &M{Oneof: &M_Member{}}): the member is selected and holds an empty message
+		if !m.IsValid() {
+			return ""
+		}
+		mi, ok := m.Type().(*impl.MessageInfo)
+		if !ok || len(mi.OneofWrappers) == 0 {
+			return ""
+		}
+		sv := reflect.ValueOf(m.Interface())
+		if sv.Kind() != reflect.Ptr || sv.Elem().Kind() != reflect.Struct {
+			return ""
+		}
+		type cand struct {
+			fd protoreflect.FieldDescriptor
+			wt reflect.Type
+		}
+		var cands []cand
+		for _, w := range mi.OneofWrappers {
+			wt := reflect.TypeOf(w).Elem()
+			if wt.NumField() != 1 || wt.Field(0).Type.Kind() != reflect.Ptr || wt.Field(0).Type.Elem().Kind() != reflect.Struct {
+				continue
+			}
+			var num int
+			fmt.Sscanf(strings.SplitN(wt.Field(0).Tag.Get("protobuf"), ",", 3)[1], "%d", &num)
+			if fd := md.Fields().ByNumber(protoreflect.FieldNumber(num)); fd != nil && fd.Message() != nil && fd.ContainingOneof() != nil {
+				cands = append(cands, cand{fd, wt})
+			}
+		}
+		if len(cands) == 0 {
+			return ""
+		}
+		c := cands[int(op.N)%len(cands)]
+		set := false
+		for i := 0; i < sv.Elem().NumField(); i++ {
+			f := sv.Elem().Field(i)
+			if f.Kind() == reflect.Interface && f.CanSet() && reflect.PointerTo(c.wt).Implements(f.Type()) {
+				f.Set(reflect.New(c.wt))
+				set = true
+				break
+			}
+		}
+		if !set {
+			return "" // opaque structs keep the oneof in an unexported field
+		}
+		am.SetMsg(c.fd, model.NewMsg(c.fd.Message()))
+		if !m.Has(c.fd) {
+			return fmt.Sprintf("has: oneof member %s selected through a wrapper holding a nil message: Has is false (WhichOneof names %v)", c.fd.Name(), m.WhichOneof(c.fd.ContainingOneof()) != nil)
 		}
 	case "gen-set-msg", "gen-clear-msg":
 		// generated SetX(*T) / ClearX() / HasX() of a singular message field (hybrid and opaque APIs), also
